@@ -81,6 +81,18 @@ Theorem C19_hour_step_refuted :
     @upd_T R RNum alpha 1 (10 * 10) prev cur nxt < Rmin cur (Rmin prev nxt).
 Proof. exact hour_step_refuted_lemma. Qed.
 
+(* where BD comes from (soil.go:308-321, input.go:277): every KA5 class 1..5 maps to a density inside the
+   admissible range, so for class input the readers establish the hypothesis of C19_diffusion_number ... *)
+Theorem C19_class_density : forall c : Z, (1 <= c <= 5)%Z ->
+  exists v : R, bd_of_class c = Some v /\ 567 / 1000 <= v <= 23 / 10.
+Proof. exact class_density_lemma. Qed.
+
+(* ... for every 10-cm layer (class input, or a measured value in the range); the stone content does not
+   enter the layer density *)
+Theorem C19_layer_bd_admissible : forall (hs : list (Z * Z * option R)) (prev : Z),
+  Forall horizon_admissible hs -> Forall (fun v => 567 / 1000 <= v <= 23 / 10) (layer_bd prev hs).
+Proof. exact layer_bd_admissible_lemma. Qed.
+
 (* non-vacuity: a mineral layer (BD 1.5, 2 % humus, water content 0.3) is admissible *)
 Example C19_nonvacuous :
   admissible {| l_bd := 15 / 10; l_wg := 3 / 10; l_hum := 2 / 100; l_pw := 9 / 100; l_ex := 1 / 100 |}.
@@ -95,3 +107,5 @@ Print Assumptions C19_run_envelope_admissible.
 Print Assumptions C19_surface_value.
 Print Assumptions C19_diffusion_number_refuted.
 Print Assumptions C19_hour_step_refuted.
+Print Assumptions C19_class_density.
+Print Assumptions C19_layer_bd_admissible.
